@@ -1117,7 +1117,7 @@ impl<'a> CompilerState<'a> {
                 Rule::neg => rhs?.checked_neg().ok_or_else(|| {
                     self.syntax_error("Constant expression overflow", op.as_span().start())
                 }),
-                Rule::not => Ok(!rhs?),
+                Rule::not => Ok(if rhs? == 0 { 1 } else { 0 }),
                 Rule::bnot => Ok(!rhs?),
                 _ => unreachable!(),
             })
